@@ -211,3 +211,104 @@ C12_SCENARIOS (c12_subx, N_C12_ONE, false)
   std::shared_ptr <op> x = std::make_shared <op_subx> (l, u, origin, s, 1);
   interleave (x, *u, l, range_of (ra), range_of (rb), pattern);
 }
+
+// ---- values are deep-copied when stacks are copied (stack.cc: stack (stack const &); value-seq.cc: the copy
+// constructor / clone): what one execution does to its copy of a sequence -- `add' appends in place to its left
+// operand's storage -- is invisible in the stack it was copied from (the caller's input stack, the literal held by
+// the compiled query, another execution's state).
+static inline std::unique_ptr <value_seq>
+mk_seq (unsigned n, uint64_t const *tok, bool nested_first, unsigned inner_n, uint64_t inner_tok)
+{
+  value_seq::seq_t v;
+  for (unsigned i = 0; i < 3; ++i)
+    if (i < n)
+      {
+        if (i == 0 && nested_first)
+          {
+            value_seq::seq_t in;
+            if (inner_n > 0)
+              in.push_back (std::make_unique <value_tok> (inner_tok, 0));
+            v.push_back (std::make_unique <value_seq> (std::move (in), 0));
+          }
+        else
+          v.push_back (std::make_unique <value_tok> (tok[i], i));
+      }
+  return std::make_unique <value_seq> (std::move (v), 0);
+}
+
+static inline void
+expect_seq (value const &val, unsigned n, uint64_t const *tok, bool nested_first, unsigned inner_n, uint64_t inner_tok)
+{
+  auto seq = value::as <value_seq> (&val);
+  vp_assert (seq != nullptr, "still a sequence");
+  if (seq == nullptr)
+    return;
+  auto const &v = *seq->get_seq ();
+  vp_assert (v.size () == n, "the original sequence keeps its length");
+  for (unsigned i = 0; i < 3; ++i)
+    if (i < n && i < v.size ())
+      {
+        if (i == 0 && nested_first)
+          {
+            auto in = value::as <value_seq> (v[i].get ());
+            vp_assert (in != nullptr && in->get_seq ()->size () == inner_n, "the original nested sequence keeps its length");
+            if (in != nullptr && inner_n > 0 && in->get_seq ()->size () == inner_n)
+              vp_assert (static_cast <value_tok const &> (*(*in->get_seq ())[0]).m_tok == inner_tok, "the original nested element is unchanged");
+          }
+        else
+          vp_assert (static_cast <value_tok const &> (*v[i]).m_tok == tok[i], "the original elements are unchanged");
+      }
+}
+
+static inline void
+run_seq_copy (unsigned n, bool nested, unsigned inner_n, unsigned how)
+{
+  uint64_t tok[3], inner_tok = nd_tok (), extra = nd_tok ();
+  for (unsigned i = 0; i < 3; ++i)
+    tok[i] = nd_tok ();
+  stack orig;
+  orig.push (std::make_unique <value_tok> (nd_tok (), 0));
+  orig.push (mk_seq (n, tok, nested, inner_n, inner_tok));
+  {
+    // how 0: copy of the whole stack (zw_query_execute, op_tine, op_subx ...); 1: value::clone (zw_stack_push, op_const)
+    std::unique_ptr <value> mine;
+    std::unique_ptr <stack> copy;
+    value_seq *vs;
+    if (how == 0)
+      {
+        copy = std::make_unique <stack> (orig);
+        vs = value::as <value_seq> (&copy->get (0));
+      }
+    else
+      {
+        mine = orig.get (0).clone ();
+        vs = value::as <value_seq> (mine.get ());
+      }
+    vp_assert (vs != nullptr, "the copy is a sequence");
+    if (vs != nullptr)
+      {
+        vp_assert (vs->get_seq ()->size () == n, "the copy has the same length");
+        // what op_add_seq::operate does to its left operand
+        vs->get_seq ()->push_back (std::make_unique <value_tok> (extra, 0));
+        if (nested && n > 0)
+          if (auto in = value::as <value_seq> ((*vs->get_seq ())[0].get ()))
+            in->get_seq ()->push_back (std::make_unique <value_tok> (extra, 0));
+      }
+    expect_seq (orig.get (0), n, tok, nested, inner_n, inner_tok);
+  }
+  // the copy is gone; the original is still whole
+  expect_seq (orig.get (0), n, tok, nested, inner_n, inner_tok);
+  vp_assert (orig.size () == 2, "the original stack keeps its depth");
+}
+
+VP_HARNESS (c12_seq_copy)
+{
+  // scenario = (length 0..2) x (first element nested?) x (inner length 0..1) x (stack copy / clone)
+  uint64_t lo = vp_range_lo (), hi = vp_range_hi ();
+  if (hi > 24) hi = 24;
+  uint64_t scen = vp_nondet_u64 ();
+  vp_assume (scen >= lo && scen < hi);
+  for (uint64_t s = lo; s < hi; ++s)
+    if (scen == s)
+      run_seq_copy ((unsigned) (s % 3), (s / 3) % 2 == 1, (unsigned) ((s / 6) % 2), (unsigned) (s / 12));
+}
